@@ -796,7 +796,7 @@ func c15GoRefsQuiet(st *Stack, key string, hs int) []byte {
 }
 
 // Harness_C15_stack_mixed: the two implementations take turns on one directory: each sees the other's transactions and compactions.
-// bounds: 4 steps, each one of {Go Add, C add, Go CompactAll, C compact_all, C add with automatic compaction, Go Add with automatic compaction} (steps 1 and 2 are additions), then both merged views are compared and checked against the transactions; BlockSize 256, sha1
+// bounds: 4 steps, each one of {Go Add, C add, Go CompactAll, C compact_all, C add with automatic compaction, Go Add with automatic compaction, C auto_compact, C clean} (steps 1 and 2 are additions), then both merged views are compared and checked against the transactions; BlockSize 256, sha1
 // assumes: sequential, as above
 // covers: done
 func Harness_C15_stack_mixed() {
@@ -810,7 +810,7 @@ func Harness_C15_stack_mixed() {
 		if step < 2 {
 			op = []int{0, 1}[VerifChoose(2)]
 		} else {
-			op = VerifChoose(6)
+			op = VerifChoose(8)
 		}
 		switch op {
 		case 0, 5: // Go adds
@@ -844,6 +844,10 @@ func Harness_C15_stack_mixed() {
 			VerifAs(0)
 		case 3:
 			VerifAssert(c15COp(dir, cfg, 2, nil) == 0, "c-compactall")
+		case 6:
+			VerifAssert(c15COp(dir, cfg, 3, nil) == 0, "c-autocompact")
+		case 7:
+			VerifAssert(c15COp(dir, cfg, 4, nil) == 0, "c-clean")
 		}
 	}
 	st := c15StackViews(dir, cfg, "")
@@ -973,4 +977,50 @@ func Harness_C15_small_refsfor() {
 	VerifAssert(goDump == nil || bytesEq(goDump, exp), "refsfor-differs-from-input")
 	c15Same(data, 2, q, 0, goDump, "readers-differ-on-refsfor")
 	VerifCover("done")
+}
+
+// Harness_C15_stack_after_crash: whatever a Go process that is abandoned in the middle of a transaction or a compaction leaves behind (lock files, temporary files, a half-written list lock), the C stack still opens the directory, sees a committed state - the same one Go sees - and a C transaction either commits or is refused with a lock error.
+// bounds: stack of 2 Go transactions; a Go process running Add, Add with automatic compaction or CompactAll is abandoned immediately before any of its filesystem steps (or completes); then the C stack scans, adds one transaction, and both merged views are compared
+// assumes: sequential after the crash, as above
+// covers: crashed, completed
+func Harness_C15_stack_after_crash() {
+	cfg := stackCfg(0)
+	hs := 20
+	dir := VerifTempDir()
+	seedStack(dir, cfg, 2)
+	VerifAs(1)
+	st := mustOpen(dir, cfg, "open")
+	VerifAs(0)
+	if st == nil {
+		return
+	}
+	op := VerifChoose(3)
+	VerifSpawnCrashable(func() {
+		switch op {
+		case 0:
+			addTxn(st, 7, true)
+		case 1:
+			st.disableAutoCompact = false
+			addTxn(st, 7, true)
+		case 2:
+			st.CompactAll(nil)
+		}
+	})
+	VerifRun(0)
+	if VerifCrashed() {
+		VerifCover("crashed")
+	} else {
+		VerifCover("completed")
+	}
+	c15StackViews(dir, cfg, "")
+	r := c15COp(dir, cfg, 0, c15Txn(8, 1, false, hs))
+	VerifAssert(r == 0 || r == -5, "c-add-after-go-crash-fails-otherwise")
+	fin := c15StackViews(dir, cfg, "")
+	if fin != nil && r == 0 {
+		VerifQuiet(func() {
+			got := snapshot(fin, "after-c-add")
+			VerifAssert(got.refs["p8"] == 8 && got.refs["s"] == 8, "c-transaction-lost")
+			VerifAssert(got.refs["p0"] == 0 && got.refs["p1"] == 1, "go-transaction-lost")
+		})
+	}
 }
